@@ -49,7 +49,7 @@ LABELS = {"KanR": "Kanamycin", "KnR": "Kanamycin", "CamR": "Chloramphenicol", "C
           "AmpR": "Ampicillin", "SmR": "Spectinomycin", "SpecR": "Spectinomycin"}
 
 
-def check_mapping(reg, model, what, content=None):
+def check_mapping(reg, model, what, content=None, also_absent=()):
     """reg must behave as the read-only mapping ``model`` {key: expected sequence or None}."""
     from moclo.record import CircularRecord
     keys = sut(lambda: list(iter(reg)))
@@ -88,6 +88,19 @@ def check_mapping(reg, model, what, content=None):
         if model[key] is not None and str(item.record.seq).upper() != model[key].upper():
             raise Violation("CONTENT", "%s: %r holds another plasmid than expected (first member must win)"
                             % (what, key))
+    for miss in also_absent:
+        if miss in model:
+            continue
+        try:
+            found = reg[miss]
+        except KeyError:
+            found = None
+        except Exception as e:  # noqa
+            raise Violation("ABSENT-KEY", "%s: lookup of absent key %r raised %s" % (what, miss, type(e).__name__))
+        if found is not None or sut(lambda: miss in reg):
+            raise Violation("ABSENT-KEY:path", "%s: %r is not one of the keys %r, yet it is %s"
+                            % (what, miss, sorted(model)[:6],
+                               "found (item id %r)" % found.id if found is not None else "'in' the registry"))
     for key in keys[:40]:
         for miss in (key + "x", key[:-1], key.lower() if key.lower() != key else key.upper(), "", key + ".gb"):
             if miss in model:
@@ -218,8 +231,19 @@ def check(spec, ctx):
     kit = spec["kit"]
     if spec["kind"] == "fs":
         reg, model, ignored = sut(fs_registry, kit, spec["member"])
+        # files inside sub-directories are ignored, and keys are stems, not paths
+        paths = []
+        for e in spec["member"]["listing"]:
+            if e["kind"] == "dir":
+                paths.append(e["name"] + "/" + split_name(e["inner"])[0])
+        for k in sorted(model)[:3]:
+            paths += ["/" + k, "./" + k]
+            for e in spec["member"]["listing"]:
+                if e["kind"] == "dir":
+                    paths.append(e["name"] + "/../" + k)
         check_mapping(reg, model, "filesystem registry %r" % [
-            (e.get("stem") or e.get("name"), e.get("ext")) for e in spec["member"]["listing"]])
+            (e.get("stem") or e.get("name"), e.get("ext")) for e in spec["member"]["listing"]],
+            also_absent=paths)
         ctx.note(spec, ignored > 0, ["fs", "files:%d" % min(len(model), 6), "ignored:%d" % min(ignored, 6)])
         return
     # combined
